@@ -383,6 +383,7 @@ static void handle_evt(m_mod_t *self, const m_queue_t *evts, int hidx) {
         const m_evt_t *e = (const m_evt_t *)m_queue_itr_get_data(it);
         EvtObs o;
         observe(e, o);
+        o.prio = evt_prio(s, o);
         d.evts.push_back(o);
         if (o.type == M_SRC_TYPE_FD && R->k.is_open(o.fd)) {
             // consume what the environment wrote so a level-triggered descriptor does not fire forever
@@ -1073,12 +1074,15 @@ void exec_op(const Op &op, bool in_cb, int cb_slot) {
         if (on("C16")) {
             oracle_eval("C16.stash-allowed");
             // high priority: descriptor events always, anything whose source/subscription was registered HIGH
-            bool high = e.type == M_SRC_TYPE_FD;
+            bool high = e.type == M_SRC_TYPE_FD || e.prio == 2;   // (classified when the event was handed over: a stop meanwhile wipes the mirrors)
             if (e.type == M_SRC_TYPE_PS) { for (auto &hh : s.sub_history) if (hh.second == e.ud && e.ud && (hh.flags & M_SRC_PRIO_HIGH)) high = true; }
-            else for (auto &x : s.srcs) if (x.type == e.type && x.ud == e.ud && (x.flags & M_SRC_PRIO_HIGH)) high = true;
+            else {
+                for (auto &x : s.srcs) if (x.type == e.type && x.ud == e.ud && (x.flags & M_SRC_PRIO_HIGH)) high = true;
+                for (auto &x : s.recent_srcs) if (x.type == e.type && x.ud == e.ud && (x.flags & M_SRC_PRIO_HIGH)) high = true;   // (a one-shot source is gone by the time its event is handled)
+            }
             if (st_now != ST_RUNNING && rc >= 0) VIOL("C16", "C16:stash-while-not-running", "m_mod_stash on a %s module returned %d", st_name(st_now), rc);
             if (high && rc >= 0) VIOL("C16", "C16:stash-high-priority-accepted", "stashing a high-priority event returned %d", rc);
-            if (st_now == ST_RUNNING && !high && rc != 0 && s.tb_rate == 0 && calm(m)) VIOL("C16", "C16:stash-refused", "stashing a %s-priority event on a RUNNING module returned %d", "normal/low", rc);
+            if (st_now == ST_RUNNING && !high && e.prio >= 0 && rc != 0 && s.tb_rate == 0 && calm(m)) VIOL("C16", "C16:stash-refused", "stashing a %s-priority event on a RUNNING module returned %d", "normal/low", rc);
         }
         if (rc == 0) s.stash.push_back(StashM{e.send_id, e.ud, e.type, e.data, e.raw});
         return;
